@@ -2,7 +2,7 @@
 \* since a4760cc: MmEncodeInAdd; the design before that fails NoCrash, see MC_Stream_mmfail.cfg): all invariants + liveness,
 \* a payload that cannot be serialized at every position (FailSet; the driver leaves it alone: FailOK bounds it by n).
 \* quick: payload counts 0..3, two ticks; the driver rewrites the two constants for the thorough tier (0..4, four ticks).
-\* measured (round 3, with FailSet): quick 46,786 distinct / 90,880 generated states, depth 44, ~6 s; thorough: see notes/C12.md (4 workers);
+\* measured (round 3, with FailSet): quick 45,030 distinct / 85,735 generated states, depth 44, ~6 s; thorough: see notes/C12.md (4 workers);
 \* every action has a non-zero coverage count (notes/C12.md)
 SPECIFICATION Spec
 CONSTANTS
